@@ -78,6 +78,20 @@ var seedExpectations = []seedExpect{
 	{"C01-c", "C01", "operands.Block.walker", "collectGlobalVarsFromStatements"},
 	{"C17-c", "C17", "operands.Block.walker", "collectGlobalVarsFromStatements"},
 	{"C08-c", "C08", "scope.defafterinit", "collectStmtDeps"},
+	// third round
+	{"C02-d", "C02", "version.bump14", "emitLoad"},
+	{"C03-d", "C03", "layout.colstride", "computeSubAccess"},
+	{"C03-d", "C07", "layout.colstride", "computeSubAccess"},
+	{"C05-d", "C05", "recursion.depth", "writeWorkgroupZeroInit"},
+	{"C09-d", "C09", "scope.shadowclear", "localIsPtr"},
+	{"C10-d", "C10", "abort.argindex", "swizzlePattern"},
+	{"C11-d", "C11", "swizzle.checked", "lowerMemberForRef"},
+	{"C18-d", "C18", "arith.roundup", "psvComputeMaskDwordsFromVectors"},
+	{"C06-d", "C06", "order.pair", "tryFoldVectorBinaryOp"},
+	{"C13-d", "C13", "handlewalk.Block.walker", "traceStatementsForRefs"},
+	{"C12-d", "C12", "clone.fresh", "ExprCompose"},
+	// hand-made positive controls (controls/)
+	{"globals-write", "C12", "globals.nowrite", "typeNameCache"},
 }
 
 // overlayFromPatch materialises the files a unified diff touches, patches
@@ -141,6 +155,9 @@ func runSelfTest(repo, verif string, r *Report) {
 		n++
 		construct := e.Seed + ":" + e.Rule + ":" + e.Construct
 		patch := filepath.Join(verif, "seeded", e.Seed, "patch.diff")
+		if _, err := os.Stat(patch); err != nil {
+			patch = filepath.Join(verif, "controls", e.Seed, "patch.diff")
+		}
 		ov, ok := overlayFromPatch(repo, patch)
 		if !ok {
 			skipped = append(skipped, e.Seed)
